@@ -61,8 +61,18 @@ func genCols(r *rng, rich bool) []Col {
 }
 
 func assignIdxKinds(r *rng, ts *TableSpec) {
-	mode := r.Intn(3) // 0: btree everywhere possible, 1: unique key + skip lists, 2: mixed
+	mode := r.Intn(4) // 0: btree everywhere possible, 1: unique key + skip lists, 2: mixed, 3: hash index on the key column
 	ts.IdxKinds = make([]string, len(ts.Cols))
+	if mode == 3 {
+		// the hash index has no UpdateEntry and no range scan: tables that carry one get INSERT / DELETE /
+		// SELECT only, and predicates on the hash column other than one equality go through a sequential scan
+		hc := 0
+		if r.Chance(0.5) {
+			hc = len(ts.Cols) - 1 // (index pages are allocated column by column: here the hash blocks are the newest pages of the table)
+		}
+		ts.IdxKinds[hc] = "hash"
+		return
+	}
 	if ts.Wide > 6 {
 		// (B-tree keys: a varchar key must stay below 24 bytes)
 		for _, c := range ts.Cols {
@@ -177,6 +187,16 @@ func genSqlCfg(r *rng, prop string, tier string) SqlCfg {
 			c.Tables = append(c.Tables, TableSpec{Name: fmt.Sprintf("t%d", i), Cols: cols, Wide: []int{6, 30, 120}[r.Intn(3)]})
 		}
 		c.InitRows = []int{0, 2, 8, 25, 60, 90}[r.Intn(6)]
+	}
+	hashRun := false
+	for _, t := range c.Tables {
+		if hashCol(&t) != "" {
+			hashRun = true
+		}
+	}
+	if hashRun && r.Chance(0.8) {
+		// known finding hash-index-pages-lost-by-crash: most hash runs stay outside its trigger
+		c.PCrashRestart = 0
 	}
 	if btreeRun && r.Chance(0.7) {
 		// known finding btree-header-stale-after-crash-then-clean-restart needs a crash restart followed
@@ -301,6 +321,53 @@ func richRow(r *rng, ts *TableSpec, k int32) (row []any, plan bool) {
 }
 
 // opFeatures: properties of the operations of a (minimised) replay that known findings key on.
+func hashCol(ts *TableSpec) string {
+	for i, k := range ts.IdxKinds {
+		if k == "hash" {
+			return ts.Cols[i].Name
+		}
+	}
+	return ""
+}
+
+// hashSafe: a predicate that mentions a hash-indexed column would make the optimizer choose an index
+// range scan, which the hash index does not have: it is wrapped into OR(p, p), which is answered by a
+// sequential scan. (The hash index itself is compared with the heap by M-IDX through ScanKey.)
+func hashSafe(ts *TableSpec, p *Pred) *Pred {
+	hc := hashCol(ts)
+	if hc == "" || p == nil {
+		return p
+	}
+	leaves, bad, hasOr := 0, false, false
+	var walk func(q *Pred)
+	walk = func(q *Pred) {
+		if q == nil {
+			return
+		}
+		if q.Logic != "" {
+			if q.Logic == "OR" {
+				hasOr = true
+			}
+			walk(q.L)
+			walk(q.R)
+			return
+		}
+		if q.Col == hc {
+			leaves++
+			if q.Op != "=" {
+				bad = true
+			}
+		}
+	}
+	walk(p)
+	_ = bad
+	if hasOr || leaves == 0 {
+		return p
+	}
+	// (even a single equality is planned as a range scan once statistics exist)
+	return &Pred{Logic: "OR", L: p, R: p}
+}
+
 // sqlFeatures: features of the op list plus those of the configuration (index kinds of the tables).
 func sqlFeatures(cfg *SqlCfg, ops []Op) map[string]bool {
 	f := opFeatures(ops)
@@ -611,11 +678,15 @@ func (g *sqlGen) stmt(e *Exec, mt *MTxn) *Stmt {
 				st.Where = genPredicate(r, ts, t, view)
 			}
 		}
+		st.Where = hashSafe(ts, st.Where)
 		return st
 	}
 	kind := r.Intn(10)
 	if len(view) == 0 {
 		kind = 0
+	}
+	if hashCol(ts) != "" && kind >= 4 && kind <= 7 {
+		kind = []int{0, 9}[r.Intn(2)] // no UPDATE on a table with a hash index
 	}
 	switch {
 	case kind <= 3:
@@ -657,7 +728,7 @@ func (g *sqlGen) stmt(e *Exec, mt *MTxn) *Stmt {
 		}
 		return st
 	default:
-		return &Stmt{Kind: "delete", Table: ts.Name, Where: genPredicate(r, ts, t, view)}
+		return &Stmt{Kind: "delete", Table: ts.Name, Where: hashSafe(ts, genPredicate(r, ts, t, view))}
 	}
 }
 
@@ -744,6 +815,9 @@ func (sr *SqlRun) minFrames() int {
 		for _, k := range t.IdxKinds {
 			if k == "btree" {
 				n += 100
+			}
+			if k == "hash" {
+				n += 16 // header + block pages of the linear probe table
 			}
 		}
 	}
@@ -897,6 +971,9 @@ func (sr *SqlRun) checkIndexes(opIdx int, where string) {
 				}
 				// full ordered scan
 				itr := idx.GetRangeScanIterator(nil, nil, txn)
+				if itr == nil {
+					return // hash index: no ordered scan
+				}
 				var got []string
 				n := 0
 				for done, _, _, rid := itr.Next(); !done; done, _, _, rid = itr.Next() {
@@ -1049,9 +1126,9 @@ func (sr *SqlRun) observable(opIdx int) (map[string][]string, string) {
 			vals = append(vals, randVal(pr, col.Type, ts.Wide), randVal(pr, col.Type, ts.Wide))
 			var qs []*Stmt
 			for _, v := range vals {
-				qs = append(qs, &Stmt{Kind: "select", Table: ts.Name, Cols: colNames(ts), Where: &Pred{Col: col.Name, Op: "=", Val: v}})
+				qs = append(qs, &Stmt{Kind: "select", Table: ts.Name, Cols: colNames(ts), Where: hashSafe(ts, &Pred{Col: col.Name, Op: "=", Val: v})})
 			}
-			if col.Type == TInt || col.Type == TFloat {
+			if (col.Type == TInt || col.Type == TFloat) && col.Name != hashCol(ts) {
 				a, b := randVal(pr, col.Type, 0), randVal(pr, col.Type, 0)
 				if c, ok := cmpVals(a, b); ok && c > 0 {
 					a, b = b, a
